@@ -342,7 +342,13 @@ func (e *Exec) closeModel(c *chanState, by *thread) {
 	}
 }
 
-func ChanLen[T any](ch chan T) int {
+// ChanLen / ChanCap take a receive-only channel type: a bidirectional channel converts
+// implicitly; ChanLenS / ChanCapS are the forms for send-only channel values.
+func ChanLenS[T any](ch chan<- T) int { return ChanLen(asRecv[T](chanKeyS(ch))) }
+func ChanCapS[T any](ch chan<- T) int { return cap(ch) }
+func asRecv[T any](p unsafe.Pointer) <-chan T { return *(*<-chan T)(unsafe.Pointer(&p)) }
+
+func ChanLen[T any](ch <-chan T) int {
 	e, t := managed()
 	if t == nil {
 		return len(ch)
@@ -351,14 +357,14 @@ func ChanLen[T any](ch chan T) int {
 		return 0
 	}
 	e.mu.Lock()
-	c := csOf[T](e, chanKey(ch))
+	c := csOf[T](e, chanKeyR(ch))
 	e.mu.Unlock()
 	n := 0
 	e.point(t, &op{desc: "chan.len", ch: c, chosen: -2, enabled: alwaysTrue, exec: func() { n = len(c.buf) }})
 	return n
 }
 
-func ChanCap[T any](ch chan T) int { return cap(ch) }
+func ChanCap[T any](ch <-chan T) int { return cap(ch) }
 
 // ---- select ----
 
